@@ -3,6 +3,7 @@
    client-first uses a fresh draw of the randomness oracle. *)
 From Coq Require Import String ZArith Lia.
 From Verif Require Import Bytes Base64 Scram AuthLoop Sasl.
+From VerifGen Require Import Gen.
 Open Scope N_scope.
 
 (* (kept local: this file must not depend on ScramProofs.v, whose T1 obligation fails on a tree without the C15 repairs) *)
@@ -237,4 +238,57 @@ Proof.
   rewrite N2Nat.inj_iter, Nat2N.id, pb_iter_is_hi_from.
   rewrite firstn_all2; [reflexivity|].
   rewrite (hi_from_length HMAC n); auto.
+Qed.
+
+
+(* ---- reuse of an Auth value: every exchange is the exchange of a fresh value ---- *)
+From Verif Require Import Crypto SaslRun.   (* auth_seq, obs_of; imported here: Crypto.hex_of would shadow Sasl.hex_of above *)
+(* T1: loginAuth.Start resets the step counter *)
+Lemma gen_login_start_resets : Gen.login_start_resets_step = true.
+Proof. reflexivity. Qed.
+
+(* LOGIN: what one call of Auth does and logs does not depend on the step counter the value was left with *)
+Lemma login_obs_independent_of_history : forall a si lad a0 (s s' : N) script,
+  obs_of (auth (login_mech a si) lad a0 s script) = obs_of (auth (login_mech a si) lad a0 s' script).
+Proof.
+  intros a si lad a0 s s' script. unfold login_mech. rewrite gen_login_start_resets.
+  unfold auth, login_mech_cfg. cbn [m_start].
+  destruct (negb (lg_allow_unenc a) && negb (si_tls si) && negb (is_localhost (si_name si))); [reflexivity|].
+  destruct (negb (bytes_eqb (si_name si) (lg_host a))); reflexivity.
+Qed.
+
+Lemma login_reuse_is_fresh : forall a si lad (s : N) scripts,
+  auth_seq (login_mech a si) lad s scripts = auth_seq (login_mech a si) lad 0 scripts.
+Proof.
+  intros a si lad s scripts. revert s. generalize 0 as s'. induction scripts as [|sc rest IH]; intros s' s; [reflexivity|].
+  simpl. rewrite (login_obs_independent_of_history a si lad false s s' sc). f_equal. apply IH.
+Qed.
+
+(* the mechanisms without state (PLAIN, CRAM-MD5, XOAUTH2): trivially *)
+Lemma stateless_reuse_is_fresh : forall (m : mech unit) lad (s : unit) scripts,
+  auth_seq m lad s scripts = auth_seq m lad tt scripts.
+Proof. intros m lad []. reflexivity. Qed.
+
+(* SCRAM: a call of Auth on a value in ANY state is the call on the reset value (Start resets; proved for the working
+   tree's configuration).  A reset value differs from a fresh one only in the cached bindData field. *)
+Lemma scram_reuse_starts_reset : forall H HMAC hsize precis cfg id lad a0 st rands script,
+  start_resets cfg = true ->
+  auth (scram_mech H HMAC hsize precis cfg id) lad a0 (st, rands) script =
+  auth (scram_mech H HMAC hsize precis cfg id) lad a0 (ss_reset st, rands) script.
+Proof.
+  intros H HMAC hsize precis cfg id lad a0 st rands script SR. unfold auth, scram_mech. cbn [m_start].
+  unfold scram_start. rewrite SR. reflexivity.
+Qed.
+
+(* without the reset in Start (the configuration false) the statement is false: a LOGIN value left at step 2 by a
+   completed exchange answers "Username:" of the next exchange with an error *)
+Lemma login_reuse_without_reset_refuted :
+  exists a si script,
+    ro_class (obs_of (auth (login_mech_cfg false a si) false false 2 script)) <>
+    ro_class (obs_of (auth (login_mech_cfg false a si) false false 0 script)).
+Proof.
+  exists {| lg_user := bs "user"; lg_pass := bs "pw"; lg_host := bs "localhost"; lg_allow_unenc := false |},
+         {| si_name := bs "localhost"; si_tls := false |},
+         [Reply 334 (bs "VXNlcm5hbWU6"); Reply 334 (bs "UGFzc3dvcmQ6"); Reply 235 (bs "ok")].
+  vm_compute. discriminate.
 Qed.
